@@ -8,6 +8,8 @@ import (
 	"os"
 	"testing"
 
+	stdflate "compress/flate"
+
 	fflate "github.com/intel/fastgo/compress/flate"
 
 	"pgregory.net/rapid"
@@ -27,14 +29,40 @@ type C14Case struct {
 	ErrKind int        `json:"err_kind"`
 	Short   int        `json:"short"`
 	OnlyK   int        `json:"only_k,omitempty"` // replay: check just this k (0 = all)
+	Tail    []gen.Op   `json:"tail,omitempty"`   // further calls issued only in the runs with a fault (after Ops, i.e. also after a failed Close): all must fail
 }
 
 type pathErr struct{ op string }
 
 func (e *pathErr) Error() string { return "custom struct error: " + e.op }
 
+// errors that closed Writers of the library and of the standard library return: a destination that is
+// itself a compressor which was closed too early fails with exactly these values
+var (
+	errFastgoClosedWriter = func() error {
+		w, _ := fflate.NewWriter(io.Discard, 1)
+		w.Close()
+		_, err := w.Write([]byte{1})
+		return err
+	}()
+	errStdClosedWriter = func() error {
+		w, _ := stdflate.NewWriter(io.Discard, 1)
+		w.Close()
+		_, err := w.Write([]byte{1})
+		return err
+	}()
+)
+
 func injectedErr(kind int) error {
-	switch kind % 4 {
+	switch kind % 8 {
+	case 7:
+		return errFastgoClosedWriter
+	case 6:
+		return errStdClosedWriter
+	case 5:
+		return io.ErrShortWrite
+	case 4:
+		return io.EOF
 	case 0:
 		return errInjected
 	case 1:
@@ -105,7 +133,11 @@ func drawC14(t *rapid.T) C14Case {
 		total = scaled
 	}
 	c.Data = gen.DrawRecipeN(t, total)
-	c.ErrKind = rapid.IntRange(0, 3).Draw(t, "errkind")
+	c.ErrKind = rapid.IntRange(0, 7).Draw(t, "errkind")
+	for i, n := 0, rapid.IntRange(0, 4).Draw(t, "ntail"); i < n; i++ {
+		// calls after the last regular one (a Close): in a run with a fault that Close has failed
+		c.Tail = append(c.Tail, rapid.SampledFrom([]gen.Op{{K: "W", N: 0}, {K: "W", N: 7}, {K: "F"}, {K: "C"}, {K: "C"}}).Draw(t, "tailop"))
+	}
 	c.Short = rapid.SampledFrom([]int{0, 0, 1, 7, 100, 5000, -1}).Draw(t, "short")
 	if c.Set.Pkg == "gzip" && rapid.Bool().Draw(t, "gzhdr") {
 		// header strings and extra data are separate destination calls: faults can land between them
@@ -145,7 +177,12 @@ func c14Run(c C14Case, data []byte, k int, ferr error) (res []OpResult, sink *io
 		guard = fw.VerifGuard()
 	}
 	// after the failing call the remaining ops are still issued: they must all fail
-	res, _ = runOps(w, sink, data, c.Ops, nil)
+	ops := c.Ops
+	if k > 0 && len(c.Tail) > 0 {
+		ops = append(append([]gen.Op(nil), c.Ops...), c.Tail...)
+		data = append(append([]byte(nil), data...), []byte("bytes written after the failure: must be refused...............")...)
+	}
+	res, _ = runOps(w, sink, data, ops, nil)
 	return res, sink, guard, w, nil
 }
 
